@@ -720,7 +720,9 @@ end Reparse
 `From<u8> for ConversionMode` and, per mode, the profiles for which `convert_with_mode` computes
 `valid_conversion = true`, as they stand in the Rust sources now, are the mode table and the accept/reject
 decisions of the model: a mode applied to a profile outside its list fails, a mode without a list never fails on
-the profile test -/
+the profile test. (The translator reads the `From<u8>` table and the `valid_conversion` match; the statements around that
+match — `modified`, the `bail!` on an invalid profile, the profile/EL-type update — are held by the source pin of
+`convert_with_mode` in tools/check_source_pins.py.) -/
 theorem source_modes_agree :
     (∀ n, Src.modeOfU8 n = modeOfU8 n) ∧
     (∀ (r : Rpu) (m : Mode) (ps : List Nat), Src.modeAccepts m = some ps → r.dovi_profile ∉ ps →
